@@ -331,6 +331,9 @@ impl Ipc for Sock {
         } else {
             Ev::S(format!("TX {} OT {}", to, hex(msg)))
         };
+        if RAW.load(Ordering::SeqCst) {
+            st.log.push(Ev::S(format!("RAW {}", hex(msg))));
+        }
         let f = self.0.fail.load(Ordering::SeqCst);
         if f > 0 {
             self.0.fail.store(f - 1, Ordering::SeqCst);
@@ -575,6 +578,9 @@ fn render(log: &[Ev], nprogs: usize) -> Vec<String> {
     out
 }
 
+/// set while RUNRAW runs: every transmitted message is also logged in full
+pub static RAW: AtomicBool = AtomicBool::new(false);
+
 /// set while RUNPAIR runs: flow callbacks then pause briefly, so that the two runtimes really overlap in time
 static PAIR_MODE: AtomicBool = AtomicBool::new(false);
 
@@ -620,6 +626,10 @@ pub fn run(args: &[&str]) -> String {
     for a in algs.iter().filter(|a| a.inst) {
         for (p, src) in &a.progs {
             pnames.insert(*p);
+            // RUNRAW: the runtime's own compilations must be the first ones of the process (the raw messages are what is wanted)
+            if RAW.load(Ordering::SeqCst) {
+                continue;
+            }
             if let Ok(Ok((img, _))) = catch_unwind(|| portus::lang::compile_and_serialize(src.as_bytes(), &[])) {
                 images.push((p.to_string(), img));
             }
